@@ -4,6 +4,7 @@ import (
 	"crypto/sha256"
 	"fmt"
 	"hash/fnv"
+	"math/rand/v2"
 	"reflect"
 	"runtime/debug"
 	"strings"
@@ -148,8 +149,19 @@ func runC15(t *testing.T, c *choice.Stream, r *Result, opt RunOpt) {
 		line("WriteColumn after-%d-bytes %s %d bytes err=%v; equals reference: %v", len(prefix), shaHex(sink.Got), len(sink.Got), err, ok)
 	}
 	// ---- decode: fresh and used-then-reset targets ----
+	// the source hands the bytes over at once or in pieces (a column is seldom
+	// alone in a read buffer, and a transport delivers what it has)
+	segSeed := uint64(c.Draw("src.seg", 1<<31-1))
+	segMax := c.Pick("src.maxseg", 0, 0, 1, 7, 100, 4096)
+	source := func(data []byte) *simio.FaultyReader {
+		fr := &simio.FaultyReader{Data: data}
+		if segMax > 0 {
+			fr.Rng, fr.MaxSeg = rand.New(rand.NewPCG(segSeed, 1)), segMax
+		}
+		return fr
+	}
 	decode := func(label string, target proto.Column, data []byte, n int) {
-		err := target.DecodeColumn(proto.NewReader(&simio.FaultyReader{Data: data}), n)
+		err := target.DecodeColumn(proto.NewReader(source(data)), n)
 		if err != nil {
 			line("DecodeColumn %s error: %v", label, err)
 			return
@@ -171,7 +183,7 @@ func runC15(t *testing.T, c *choice.Stream, r *Result, opt RunOpt) {
 			panic(err)
 		}
 		target := cd.New()
-		rd := proto.NewReader(&simio.FaultyReader{Data: frame})
+		rd := proto.NewReader(source(frame))
 		rd.EnableCompression()
 		if err := target.DecodeColumn(rd, rows); err != nil {
 			line("DecodeColumn compressed-frame error: %v", err)
